@@ -382,6 +382,18 @@ func (c *Ctx) ruleU3(rule string) {
 				okVal = true
 			}
 		}
+		if b, is := x.isFieldLoad(val, "RuleBuilder", "Kc"); is && !okVal {
+			// ... or the container of the very builder this function installs as the master
+			eachInstr(f, func(in ssa.Instruction) {
+				if st, isSt := in.(*ssa.Store); isSt {
+					if fa, isFA := st.Addr.(*ssa.FieldAddr); isFA && fieldOf(fa).Name() == "ruleBuilder" && structName(fa.X.Type()) == "GenginePool" && x.Origin(fa.X) == gp {
+						if x.Origin(st.Val) == x.Origin(b) {
+							okVal = true
+						}
+					}
+				}
+			})
+		}
 		if x.freshKc(val) {
 			okVal = true
 		}
